@@ -97,12 +97,14 @@ mod proofs {
     }
     #[kani::proof] #[kani::unwind(10)]
     fn variable_binding_reaches_its_symbol() {
-        let (cb, cn) = sym_bytes::<3>(); let (mb, mn) = sym_bytes::<5>(); let (nb, nn) = sym_bytes::<3>();
-        let has_mangled: bool = kani::any();
-        let v = Var { link: None, mangled: if has_mangled { Some(s(&mb, mn)) } else { None }, nm: s(&nb, nn) };
+        let (cb, cn) = sym_bytes::<3>(); let (mb, mn) = sym_bytes::<5>(); let (nb, nn) = sym_bytes::<3>(); let (lb, ln) = sym_bytes::<3>();
+        let has_mangled: bool = kani::any(); let has_link: bool = kani::any();     // link: a name given by a generated_link_name_override callback (e.g. --prefix-link-name)
+        let v = Var { link: if has_link { Some(s(&lb, ln)) } else { None }, mangled: if has_mangled { Some(s(&mb, mn)) } else { None }, nm: s(&nb, nn) };
         let canonical = String::from(s(&cb, cn));
         let (has_attr, uses_canonical) = v.decide(canonical);
-        let truth: &[u8] = if has_mangled { &mb[..mn] } else { &nb[..nn] };
-        if !has_attr { assert!(uses_canonical && decorated(None, &cb[..cn], truth), "extern static without #[link_name] does not reach the C symbol"); }
+        let truth: &[u8] = if has_link { &lb[..ln] } else if has_mangled { &mb[..mn] } else { &nb[..nn] };
+        if !has_attr { assert!(decorated(None, &cb[..cn], truth), "extern static without #[link_name] does not reach the C symbol (the platform decoration of its Rust name is another symbol)"); }
+        if !has_attr && !has_link { assert!(uses_canonical, "symbol recorded for dynamic loading is not the Rust name although no #[link_name] was needed"); }
+        kani::cover!(has_link && has_attr, "override bound through #[link_name]");
     }
 }
